@@ -10,8 +10,9 @@
 (*     under reordering of the chains.                                     *)
 (*                                                                         *)
 (* One state = one call: `base` the integer chains, `cur` the transformed  *)
-(* chains the call receives, `how` the transformation.  The actions move   *)
-(* from the untransformed call to its neighbours:                          *)
+(* chains the call receives, `how` the transformation.  Extend builds the  *)
+(* base chains value by value; the other actions move from the             *)
+(* untransformed call to its neighbours:                                   *)
 (*     ShiftBy(c)   every value + c                                        *)
 (*     ScaleBy(k)   every value * k  (k # 0, negative allowed)             *)
 (*     Reorder(p)   chains permuted                                        *)
@@ -25,63 +26,80 @@
 (***************************************************************************)
 EXTENDS Naturals, Integers, Sequences, FiniteSets, TLC, ChainDiagOps
 
-CONSTANTS Shapes,    \* set of <<M, N>>: M chains of N samples
-          Vals,      \* chain values (set of integers)
+CONSTANTS Shapes,    \* set of <<M, N, V>>: M chains of N samples with values in 0..V-1
           Shifts,    \* integer shifts c
           Scales,    \* integer factors k (non-zero)
           Variant
 
-VARIABLES base, cur, how
-vars == <<base, cur, how>>
+VARIABLES shape,   \* <<M, N, V>>
+          flat,    \* the values chosen so far, chain after chain (the chains are built one value per
+                   \* step so that TLC's workers share the enumeration; "build" states carry no claim)
+          base, cur, how,
+          bres, cres   \* Diag(base), Diag(cur): evaluated once per state
+vars == <<shape, flat, base, cur, how, bres, cres>>
 
 \* ---- the implementation under the chosen variant ---------------------------------
 RhatSq(ch) == CASE Variant = "nosplit" -> RhatSqGen(ch, TRUE, 1)
                 [] Variant = "ddof0" -> RhatSqGen(ch, FALSE, 0)
-                [] OTHER -> RhatSqGen(ch, FALSE, 1)
+                [] OTHER -> RhatSqCode(ch)
 Ess(ch) == CASE Variant = "uncentered" -> EssGen(ch, FALSE, FALSE)
              [] Variant = "firstchain" -> EssGen(ch, TRUE, TRUE)
-             [] OTHER -> EssGen(ch, TRUE, FALSE)
+             [] OTHER -> EssCodeRat(ch)
+Diag(ch) == [r2 |-> RhatSq(ch), ess |-> Ess(ch)]
+NoDiag == [r2 |-> Undef, ess |-> [val |-> Undef, bnd |-> FALSE]]
 
 \* ---- behaviour -----------------------------------------------------------------------
-Init == /\ \E s \in Shapes : base \in [1..s[1] -> [1..s[2] -> Vals]]
-        /\ cur = base
-        /\ how = "id"
+Init == /\ shape \in Shapes /\ flat = <<>> /\ base = <<>> /\ cur = <<>> /\ how = "build"
+        /\ bres = NoDiag /\ cres = NoDiag
 
-ShiftBy(c) == /\ how = "id" /\ c # 0
-              /\ cur' = ShiftChains(base, c) /\ how' = "shift" /\ UNCHANGED base
-ScaleBy(k) == /\ how = "id" /\ k # 1
-              /\ cur' = ScaleChains(base, k) /\ how' = "scale" /\ UNCHANGED base
+Extend(v) ==
+  /\ how = "build"
+  /\ LET M == shape[1]
+         N == shape[2]
+         f == Append(flat, v)
+     IN IF Len(f) < M * N
+        THEN /\ flat' = f /\ UNCHANGED <<shape, base, cur, how, bres, cres>>
+        ELSE LET b == [j \in 1..M |-> [i \in 1..N |-> f[(j - 1) * N + i]]]
+                 d == Diag(b)
+             IN /\ flat' = f /\ base' = b /\ cur' = b /\ how' = "id"
+                /\ bres' = d /\ cres' = d /\ UNCHANGED shape
+
+Transform(ch, kind) == /\ cur' = ch /\ how' = kind /\ cres' = Diag(ch)
+                       /\ UNCHANGED <<shape, flat, base, bres>>
+ShiftBy(c) == how = "id" /\ c # 0 /\ Transform(ShiftChains(base, c), "shift")
+ScaleBy(k) == how = "id" /\ k # 1 /\ Transform(ScaleChains(base, k), "scale")
 \* rotation and transposition of the first two chains generate every permutation
 Reorder(kind) ==
   LET M == Len(base)
       perm == IF kind = "rot" THEN [j \in 1..M |-> (j % M) + 1]
               ELSE [j \in 1..M |-> IF j = 1 THEN 2 ELSE IF j = 2 THEN 1 ELSE j]
-  IN /\ how = "id" /\ M >= 2
-     /\ cur' = PermChains(base, perm) /\ how' = "perm" /\ UNCHANGED base
+  IN how = "id" /\ M >= 2 /\ (kind = "rot" => M >= 3) /\ Transform(PermChains(base, perm), "perm")
 
-Next == \/ \E c \in Shifts : ShiftBy(c)
+Next == \/ \E v \in 0..(shape[3] - 1) : Extend(v)
+        \/ \E c \in Shifts : ShiftBy(c)
         \/ \E k \in Scales : ScaleBy(k)
         \/ \E kind \in {"rot", "swap"} : Reorder(kind)
 Spec == Init /\ [][Next]_vars
 
 \* ---- properties --------------------------------------------------------------------------
+Built == how # "build"
 \* split R-hat: the implementation equals the textbook formula ...
-RhatIsTextbook == REq(RhatSq(cur), RhatSqTextbook(cur))
-\* ... the cleared integer form used by the trace spec equals it too
-RhatClearedIsTextbook == LET a == R2Int(cur) b == RhatSqTextbook(cur) IN REq(a, b)
+RhatIsTextbook == Built => REq(cres.r2, RhatSqTextbook(cur))
+\* ... the cleared integer form used by the trace spec equals the textbook formula too ...
+RhatClearedIsTextbook == Built => REq(R2Int(cur), RhatSqTextbook(cur))
 \* ... and it is invariant under the transformations
-RhatInvariant == REq(RhatSq(cur), RhatSq(base))
+RhatInvariant == Built => REq(cres.r2, bres.r2)
 \* ESS: the cleared big-natural form equals the transcription of the code
 EssClearedIsCode ==
-  LET r == EssCodeRat(cur)
-  IN /\ EssDefined(cur) = IsDef(r)
-     /\ IsDef(r) => /\ FracEqRat(EssFrac(cur), r)
-                    /\ EssBoundary(cur) = EssBoundaryRat(cur)
+  Built => LET r == IF Variant = "code" THEN cres.ess ELSE EssCodeRat(cur)
+               c == EssCleared(cur)
+           IN /\ c.def = IsDef(r.val)
+              /\ c.def => (FracEqRat(c.num, c.den, r.val) /\ c.bnd = r.bnd)
 \* invariance (where no truncation test sits exactly on 0, which floats cannot decide)
-EssInvariant == /\ EssBoundaryRat(cur) = EssBoundaryRat(base)
-                /\ ~EssBoundaryRat(base) => REq(Ess(cur), Ess(base))
+EssInvariant == Built => /\ cres.ess.bnd = bres.ess.bnd
+                         /\ ~bres.ess.bnd => REq(cres.ess.val, bres.ess.val)
 \* the estimate never exceeds the number of draws (only non-negative correlations are summed)
-EssAtMostDraws == LET r == Ess(cur) IN IsDef(r) => r[1] <= Len(cur) * NSamp(cur) * r[2]
+EssAtMostDraws == Built => LET r == cres.ess.val IN IsDef(r) => r[1] <= Len(cur) * NSamp(cur) * r[2]
 
 \* ---- unit tests of the big-natural arithmetic ----------------------------------------------
 BigTests ==
